@@ -4,6 +4,7 @@
      stringify <space> <value> -> ok U<hex4>* | undef | badnum
      roundtrip <space> <value> -> ok U<hex4>* <dump|reject> | undef | badnum
      stringifyraw <space> <value>  as stringify, members printed in the order given (no js_build)
+     stringifyid <space> <value with &n labels and *n references> -> ok U.. | undef | err TypeError   (DeepModel_C18.ser_id)
    <value>: N T F X(undefined) Z(non-finite number) M<hex4>*(number token text) S<hex4>* [ v* ] { (K<hex4>* v)* }
    <space>: - | n<decimal integer> | s<hex4>*
    <dump>: the same tokens (numbers as M<token text>), never X or Z. *)
@@ -65,6 +66,47 @@ let build (toks : string array) (pos : int ref) : tjsv =
     | _ -> raise (Bad ("token " ^ t))
   in value ()
 
+(* values with identities (deepening round): `&n` labels the container that follows, `*n` refers to it (also from inside
+   itself: a cycle); every container becomes a node of the store, in order of its opening bracket *)
+let rec nat_of_int (i : int) : nat = if i <= 0 then O else S (nat_of_int (i - 1))
+
+let build_id (toks : string array) (pos : int ref) : n list store * n list ival =
+  let nodes : (int, n list inode) Hashtbl.t = Hashtbl.create 16 in
+  let labels : (int, int) Hashtbl.t = Hashtbl.create 16 in
+  let count = ref 0 in
+  let fresh lab = let i = !count in incr count; (match lab with Some l -> Hashtbl.replace labels l i | None -> ()); i in
+  let rec value (lab : int option) : n list ival =
+    if !pos >= Array.length toks then raise (Bad "eof");
+    let t = toks.(!pos) in
+    incr pos;
+    match t.[0] with
+    | '&' -> value (Some (int_of_string (String.sub t 1 (String.length t - 1))))
+    | '*' -> (match Hashtbl.find_opt labels (int_of_string (String.sub t 1 (String.length t - 1))) with
+              | Some i -> IRef (nat_of_int i) | None -> raise (Bad "unknown label"))
+    | 'N' -> INull | 'T' -> IBool true | 'F' -> IBool false | 'X' -> IUndef | 'Z' -> INonFinite
+    | 'M' -> INum (units_of_hex t 1)
+    | 'S' -> IStr (units_of_hex t 1)
+    | '[' ->
+      let i = fresh lab in
+      let rec elems acc = if toks.(!pos) = "]" then (incr pos; List.rev acc) else let e = value None in elems (e :: acc) in
+      let es = elems [] in
+      Hashtbl.replace nodes i (NArr es); IRef (nat_of_int i)
+    | '{' ->
+      let i = fresh lab in
+      let rec mems acc =
+        let k = toks.(!pos) in
+        incr pos;
+        if k = "}" then List.rev acc
+        else if k.[0] <> 'K' then raise (Bad "key")
+        else let e = value None in mems ((units_of_hex k 1, e) :: acc) in
+      let ms = mems [] in
+      Hashtbl.replace nodes i (NObj ms); IRef (nat_of_int i)
+    | _ -> raise (Bad ("token " ^ t))
+  in
+  let v = value None in
+  let st = List.init !count (fun i -> Hashtbl.find nodes i) in
+  (st, v)
+
 let space_of (s : string) : space =
   match s.[0] with
   | '-' -> SpNone
@@ -88,6 +130,17 @@ let one (line : string) : string =
     let v = build toks pos in
     if not (tjsv_ok v) then "badnum" else
     (match m_stringify_raw sp v with Some t -> "ok " ^ hex_of_units 'U' t | None -> "undef")
+  | "stringifyid" ->
+    let sp = space_of toks.(1) in
+    let pos = ref 2 in
+    let (st, v) = build_id toks pos in
+    if not (store_ok st && ival_ok v) then "badnum" else
+    (match m_stringify_id sp st v with
+     | Inl (Some t) -> "ok " ^ hex_of_units 'U' t
+     | Inl None -> "undef"
+     | Inr ECycle -> "err TypeError"
+     | Inr EFuel -> "model-fuel"
+     | Inr EDangling -> "model-dangling")
   | "stringify" | "roundtrip" ->
     let sp = space_of toks.(1) in
     let pos = ref 2 in
